@@ -20,8 +20,8 @@ ASSUMPTIONS = [
     "normalize is judged on columns with |mean|/std <= 1e4 (beyond that the subtraction is ill-conditioned) within 1e-9",
 ]
 BUDGET = {
-    "quick": {"cases": 8000, "seconds": 40, "shards": 8},
-    "thorough": {"cases": 200000, "seconds": 420, "shards": 16},
+    "quick": {"cases": 40000, "seconds": 90, "shards": 8},
+    "thorough": {"cases": 2000000, "seconds": 900, "shards": 16},
 }
 REQUIRED_OBS = ["accuracy_checked", "confusion_checked", "per_label_checked", "purity_checked", "normalize_checked", "all_correct_cases",
                 "all_wrong_cases", "K=1", "purity_one_with_errors"]
